@@ -2,6 +2,7 @@
 import ast as pyast
 import importlib
 
+import re
 import ply.lex
 
 from ..tables import core
@@ -13,7 +14,8 @@ LEVEL = 'other'
 
 def tagged_comments(slot):
     out = []
-    for k, (ty, text) in enumerate((('BLOCK_COMMENT', '/*s%da*/' % slot), ('LINE_COMMENT', '//s%db' % slot))):
+    # the texts have what a "tidying" transformation would touch: leading / trailing blanks (space, tab, NBSP), mixed case, a doubled blank
+    for k, (ty, text) in enumerate((('BLOCK_COMMENT', '/* \ts%da  Mixed \t\xa0*/' % slot), ('LINE_COMMENT', '// s%db  Mixed \t\xa0' % slot))):
         t = ply.lex.LexToken()
         t.type, t.value = ty, text
         t.lexpos, t.lineno, t.colno = 100000 + slot * 10 + k, 7, slot * 10 + k
@@ -48,7 +50,7 @@ def check_production(g, shapes, prod):
             if not cs:
                 continue
             vals = [c.value for c in cs]
-            slots = set(int(v[3:-3] if v.startswith('/*') else v[3:-1]) for v in vals)
+            slots = set(int(m.group(1)) if m else -1 for m in (re.search(r's(\d+)[ab]', v) for v in vals))
             if len(slots) != 1:
                 probs.append((label, '%s carries comments of several tokens: %r' % (kind, vals)))
                 continue
